@@ -855,7 +855,7 @@ def _c05_hook(tier, seed):
     # (1)
     try:
         rng = random.Random(seed + 5)
-        n_cases = 45 if tier == "quick" else 3000
+        n_cases = 45 if tier == "quick" else 8000
         cases = gen_cases(rng, n_cases)
         seen = set()
         n_eval = 0
